@@ -65,6 +65,9 @@ def main():
         for sid in ids:
             d = os.path.join(VERIF, "seeded", sid)
             prop = sid.split("-")[0]
+            if not os.path.exists(os.path.join(d, "meta.agent.json")) or not os.path.exists(os.path.join(d, "patch.diff")):
+                print("skipping %s: incomplete" % sid, flush=True)
+                continue
             agent = json.load(open(os.path.join(d, "meta.agent.json")))
             meta = {
                 "id": sid,
